@@ -30,7 +30,8 @@ CLAIMED.update(
             "dominated by before_search_start; resources_left is a universal quantifier over the list the factory assigns; the three "
             "counting conditions compare counter >= limit, increment only and unconditionally in their designated hook, reset at "
             "search start; the factory registers every condition as search observer and, when it observes execution, with the "
-            "executor; executors notify observers before and after every execution. Wall-clock and memory conditions are not decided.",
+            "executor; executors notify observers before and after every execution; before_search_start (the counter reset) is a top-level statement, called once, and "
+            "nothing before it is a call on or with the algorithm object (logging excepted), so no execution is forgotten by the reset. Wall-clock and memory conditions are not decided.",
             "Trusts the CFG builder and static MRO. Does not decide how many test executions happen inside one iteration.",
             "DESIGN.md §3 C17",
         ),
@@ -156,13 +157,14 @@ CLAIMED.update(
 CLAIMED.update(
     {
         "C18": (
-            "name-use/import agreement: sticky-flag typestate of needs_pytest with a trigger table computed from the renderers that emit `pytest`, element-order rule on every cst.Module body, exclusion-set rule on exception imports, sibling agreement of the re-execution namespace, independent-guard rule on removal of non-holding assertions",
+            "name-use/import agreement: sticky-flag typestate of needs_pytest with a trigger table computed from the renderers that emit `pytest`, element-order rule on every cst.Module body, exclusion-set rule on exception imports, sibling agreement of the re-execution namespace, independent-guard rule on removal of non-holding assertions, interpretation of the public-name helper, accumulator rule",
             "Decides the clause 'no test fails because of names that are not imported' at the level of code shape: needs_pytest is only ever raised inside the per-test loop and "
             "has a trigger for every template that renders `pytest` (exceptions, and every assertion class whose renderer transitively builds a pytest name - computed from "
             "assertion_to_ast); `import pytest` is emitted iff the flag is set (unseeded) or always (seeded); both module bodies list sys/module/alias, random/pytest and the "
             "SUT / exception imports before their users; every exception named in pytest.raises is recorded and imported unless builtin (no other exclusion); the re-execution "
             "namespace binds the names of the rendered from-import through one shared helper; assertions that failed and assertions that raised when replayed are both removed, "
-            "each under its own membership test only. That the emitted tests pass, and validity of rendered values (C20), are not decided.",
+            "each under its own membership test only; _public_sut_names, interpreted over a representative module, lists every public attribute (imported names included) but the alias, sorted; "
+            "the exception types to import are accumulated over all test cases (the accumulator is never rebound in the loop). That the emitted tests pass, and validity of rendered values (C20), are not decided.",
             "Trusts python's ast; the list-building idioms (list display, append/extend) of TestSuiteWriter.write are interpreted syntactically.",
             "DESIGN.md §3 C18",
         ),
@@ -178,7 +180,9 @@ CLAIMED.update(
             "object and the candidate from a clone that underwent the same removal at the same index in the same iteration; statement-level removers skip variables in "
             "get_assertion_protected_variables of the same test case, whose backward closure is a genuine fixed point (flag only raised inside a scan); a test case changed in place while "
             "its chromosome stays alive is followed by invalidation before the next coverage computation; no visitor adds or replaces statements; _minimize snapshots before and restores "
-            "(and marks changed) when _check_coverage = all(map(isclose, ...)) is false. Whole-test removal by the SUITE strategy is outside the protected-variable rule (it deletes a test "
+            "(and marks changed) when _check_coverage = all(map(isclose, ...)) is false - locals identified by role: the suite is marked changed on every path from a coverage-guarded minimiser to the "
+            "coverages it is judged by, no minimiser runs after them, no coverage query takes the whole collection of functions; _directly_asserted_variables, interpreted over representative "
+            "test cases, returns the root variable of every reference assertion of every statement (bound or not). Whole-test removal by the SUITE strategy is outside the protected-variable rule (it deletes a test "
             "together with its assertions by design). Equality of coverage values after minimisation is not decided.",
             "Trusts the CFG builder; clone-derived names are tracked by a flow-insensitive closure over assignments.",
             "DESIGN.md §3 C22",
@@ -260,7 +264,8 @@ CLAIMED.update(
             "escapes and non-ASCII, complex incl. signed-zero / inf / nan components, members of Enum, StrEnum with overridden __str__, IntEnum, Flag, nested and empty "
             "lists/tuples/sets/dicts) are interpreted from source; every Float/Integer/SimpleString/Name token must satisfy libcst's validation, the text must compile and must "
             "evaluate to a value for which the emitted assertion holds. Each reference-assertion renderer must yield a parseable `assert`. Dispatch: bool before int, enum before "
-            "str/int; every type admitted by is_assertable and every assertion class the trace observer creates has a renderer arm. Behaviour inside a partition cell is assumed "
+            "str/int; every type admitted by is_assertable and every assertion class the trace observer creates has a renderer arm; is_assertable, interpreted over adversarial containers "
+            "(non-assertable keys / elements nested anywhere), admits nothing that does not render to an equal literal; every recorded ObjectAssertion holds a deep copy of the value. Behaviour inside a partition cell is assumed "
             "uniform; `x == pytest.approx(nan)` and resolution of enum class names in the exported namespace are not decided.",
             "Trusts sa/engine/peval.py and sa/engine/cstterm.py (token regexes, source rendering of the node shapes used by the renderers).",
             "DESIGN.md §3 C20",
@@ -304,7 +309,8 @@ CLAIMED.update(
             "mutants; _select_minimal_assertions, for all 512 kill maps over 3 assertions x 3 mutants, keeps only assertions with a non-empty kill set whose union equals the union of the "
             "full set (minimisation preserves every kill). Shape: was_violated is failed-or-error (4 cases) and every reader of a verification trace in the mutation analysis counts both kinds; "
             "results of execute_multiple(L) are zipped strictly with L itself; minimisation removes an assertion iff its key is not kept, and kill map and removal skip the same "
-            "exception-only statements. Whether kept assertions hold when re-executed on the unmutated module (SUT flakiness) is not decided.",
+            "exception-only statements; __remove_non_holding_assertions, interpreted over every disjoint combination of failed / erroring positions of a statement, removes exactly the "
+            "flagged assertions. Whether the verification run observes every violation (SUT flakiness) is not decided.",
             "Trusts sa/engine/peval.py; mutant and trace objects are modelled as field bags.",
             "DESIGN.md §3 C21",
         ),
@@ -346,7 +352,8 @@ CLAIMED.update(
             "read-set cache are written only inside testcase/testcase.py; every TestCase method that changes the statement list reaches the registry update and drops the code cache on "
             "every path; a statement's cached read set is copied only to a statement built with the same node object (never across a renaming); statements built inside TestCase bind a "
             "fresh next_var_name(), the binding of the statement they replace, or nothing, and clone carries the name counter over; crossover installs its offspring only under "
-            "`offspring.size() < chromosome_length` evaluated after the offspring's last change, and the insertion loops re-test the size before every insertion. "
+            "`offspring.size() < chromosome_length` evaluated after the offspring's last change, and the insertion loops re-test the size before every insertion; _find_variable_of_type, interpreted over representative test cases for every position, offers exactly "
+            "the matching variables bound before the position, and the test factory never consults the whole-test-case type registry. "
             "Def-before-use after arbitrary operator histories (cursor arithmetic of the recursive statement emitters) is not decided.",
             "Trusts the CFG builder; receivers are matched by name (the private fields of unrelated classes written through `self` are ignored).",
             "DESIGN.md §3 C15",
@@ -361,8 +368,9 @@ CLAIMED.update(
             "Decides absence of the static sources of run-to-run variation on the generation path: calls into the global random module, Random() construction, os.urandom, uuid, "
             "secrets and numpy.random occur only in the seeded-RNG module and the enumerated seeding / isolation functions; pynguin's generator is seeded in "
             "_setup_random_number_generator (called by _setup_and_check) and nowhere else; every construct that makes the iteration order of a hashed set observable (for, list / generator "
-            "/ dict comprehension, list(), tuple(), OrderedSet(), join(), pop(), next/iter/enumerate/zip, star-unpacking) over an expression typed as a set is order-insensitive by "
-            "construction (set-building loop bodies, sorted/len/any/all/min/max/sum consumers, set updates), or is one of 14 sites read individually and frozen with a reason; one site "
+            "/ dict comprehension, list(), tuple(), OrderedSet(), join(), pop(), next/iter/enumerate/zip, star-unpacking) over an expression typed as a set (annotation, inference, "
+            "isinstance / is_set narrowing, nx.ancestors / nx.descendants) is order-insensitive by "
+            "construction (set-building loop bodies, sorted/len/any/all/min/max/sum consumers, set updates), or is one of 15 sites read individually and frozen with a reason; hash() values only feed __hash__ or a cached hash attribute; one site "
             "(ML default dtype list, pinned by a test) is a known finding. LLM / refinement modules are off the path. Determinism of the SUT, of namespace dict orders and of thread "
             "timing is not decided.",
             "Set typing is syntactic (annotations and local inference), not a type checker: a set that reaches a consumer through an unannotated attribute or a third-party call is not seen.",
@@ -414,7 +422,7 @@ CLAIMED.update(
             "then calls check(), which raises TracingAbortedException exactly when the current thread is not the recorded owner; __enter__ records and stop() revokes ownership; every "
             "trace mutation goes through self._thread_local_state.trace of a threading.local subclass and no plain attribute of the tracer holds the current trace; on every exec path a "
             "TracingAbortedException handler that re-raises or records the abort precedes any BaseException / bare handler; the executor joins its daemon thread with timeouts that are "
-            "the configured maximum or a min() containing it, stops the tracer when the thread is still alive, answers with a fresh ExecutionResult(timeout=True) and uses a fresh result "
+            "the configured maximum or a min() containing it and, interpreted for test cases of size 0, 1, 3 and 1000, positive (thread and subprocess executors), stops the tracer when the thread is still alive, answers with a fresh ExecutionResult(timeout=True) and uses a fresh result "
             "queue per execution. The wall-clock bound and code that reaches no instrumentation point are not decided.",
             "Trusts python's ast and name-based recognition of trace mutators.",
             "DESIGN.md §3 C32",
